@@ -185,13 +185,13 @@ def cases(tier, seed):
       tiers = ('quick', 'thorough') if (k, d) in kd_quick else ('thorough',)
       out.append(case('views_g%d_k%d_d%d' % (gi, k, d), views(rep, k, d), FUNCS,
                       'components_ arbitrary real %dx%d, 2 arbitrary pairs, arbitrary v; group %s (run on %s)'
-                      % (k, d, g, rep), tiers=tiers, cost=k * d))
+                      % (k, d, g, rep), tiers=tiers, cost=k * d, max_paths=3000, hard_timeout_s=240))
     for (k, d) in [(1, 2), (2, 2), (2, 3)]:
       out.append(case('indexed_g%d_k%d_d%d' % (gi, k, d), views_indexed(rep, k, d), FUNCS,
                       'array preprocessor with 3 arbitrary points, arbitrary (possibly repeated) indices, components_ %dx%d' % (k, d),
-                      cost=k * d))
+                      cost=k * d, max_paths=20000, hard_timeout_s=240))
       out.append(case('closure_g%d_k%d_d%d' % (gi, k, d), closure_independent(rep, k, d), FUNCS,
-                      'components_ %dx%d replaced in place after get_metric()' % (k, d), cost=1))
+                      'components_ %dx%d replaced in place after get_metric()' % (k, d), cost=1, max_paths=3000, hard_timeout_s=240))
     out.append(case('dtype_variants_g%d' % gi, dtype_variants(rep, 2, 3), FUNCS,
                     'fixed random components_ 2x3; int / list / Fortran / strided inputs (concrete differential run, not solver-decided)',
                     concrete_only=True, validate=1))
